@@ -185,3 +185,29 @@ pub fn vfinalize_new_index(w: &mut PruneWorld) -> (r: RusticResult<()>)
 pub fn vrepack_and_finalize_new_index(w: &mut PruneWorld) -> (r: RusticResult<()>)
     ensures r is Ok ==> final(w).new_index_written@, final(w).old_index_removed@ == old(w).old_index_removed@,
 { unimplemented!() }
+
+// ---- copy: the tail of commands::copy::copy ----
+pub struct CopyWorld { pub data_copied: Ghost<bool>, pub trees_copied: Ghost<bool>, pub index_flushed: Ghost<bool> }
+pub struct VCopyList { pub _opaque: u64 }
+pub struct VCopier { pub _opaque: u64 }
+// copy_blobs(list, copier, p): copies and finalizes the copier (its packer is flushed when it returns Ok)
+#[verifier::external_body]
+pub fn vcopy_tree_blobs(blobs: VCopyList, copier: VCopier, p: ProgressR, w: &mut CopyWorld) -> (r: RusticResult<()>)
+    ensures r is Ok ==> final(w).trees_copied@, final(w).data_copied@ == old(w).data_copied@, final(w).index_flushed@ == old(w).index_flushed@,
+{ unimplemented!() }
+pub struct VDestIndexer { pub _opaque: u64 }
+impl VDestIndexer {
+    #[verifier::external_body]
+    pub fn vfinalize(&self, w: &mut CopyWorld) -> (r: RusticResult<()>)
+        requires old(w).data_copied@ && old(w).trees_copied@,
+        ensures r is Ok ==> final(w).index_flushed@, final(w).data_copied@ == old(w).data_copied@, final(w).trees_copied@ == old(w).trees_copied@,
+    { unimplemented!() }
+}
+pub struct VDestBe { pub _opaque: u64 }
+impl VDestBe {
+    // saving the copied snapshots in the destination.  PRECONDITION: every blob they need is there and indexed
+    #[verifier::external_body]
+    pub fn vsave_snapshots(&self, snaps: &Vec<SnapshotFile>, p: ProgressR, w: &CopyWorld) -> (r: RusticResult<()>)
+        requires w.data_copied@ && w.trees_copied@ && w.index_flushed@,
+    { unimplemented!() }
+}
